@@ -34,7 +34,7 @@ except Exception:  # pragma: no cover
 
 from pbt.worker import Worker
 
-VERIF = "/verif"
+VERIF = os.environ.get("VERIF_ROOT", "/verif")
 INCONCLUSIVE = {"inconclusive": True}
 
 
